@@ -28,7 +28,11 @@ Judge(e) ==
 
 (* Model conformance (never a verdict): the functional algorithm-level description predicts    *)
 (* the response up to the order of chunks with equal time range.                                *)
-Drift(e) == \E g \in DOMAIN e.outs : e.outs[g].err = "" /\ ~SameResult(e.outs[g].series, AlgoOutput(e.in))
+Drift(e) == \E g \in DOMAIN e.outs :
+               /\ e.outs[g].err = ""
+               /\ LET o == e.outs[g].series
+                      a == AlgoOutput(e.in)
+                  IN ~(SameResult(o, a) /\ \A i \in DOMAIN o : Len(o[i].chunks) = Len(a[i].chunks))
 
 VARIABLE l
 TraceInit == l = 1
